@@ -100,8 +100,9 @@ def checkCase (c : Case) : CaseResult := Id.run do
       | none => return { verdict := .diverge "unparsable pos" }
     | _, _, _ => return { verdict := .diverge s!"missing pos/uns/act for op {t}" }
   let sblk : Option (Array Nat) := ((c.get "sblk")[0]?).map fun l => (l.extract 1 l.size).map (fun x => nat! x)
-  -- the static model is tied on unscaled inequality systems (what the static solver supports)
-  let staticTie := vs.all (fun v => v.2.2 == 1) && allCons.all (fun k => !k.eq)
+  -- the static model is tied on unscaled systems; equalities included: the static solver merges across them
+  -- like across inequalities (known finding C01-static-eq) and so does the model
+  let staticTie := vs.all (fun v => v.2.2 == 1)
   let scaleD : Rat := 1 + dataMax
   let tol := tolAbs * scaleD
   let scaleFn : Nat → Rat := fun i => (vs.getD i (0, 1, 1)).2.2
